@@ -127,6 +127,21 @@ def problems (U : List Pkg) (targets : List Atom) (plan : List Op) : List Proble
     merged.flatMap fun p => (enum p.deps).flatMap fun cls => ((enum cls.2).filter fun cl => !clauseOk F p cl.2).map
       fun cl => .clause p.id cls.1 cl.1
 
+/-! ## the order in which the alternatives of a clause are tried
+
+`merge_plan.default_depset_reorder_strategy(depset, mode)` rewrites every clause of a dependency class before
+`process_dependencies` walks it.  The search trusts it blindly: a clause for which no alternative could be added
+is reported as `[clause]`, and an *empty* clause would be read by `process_dependencies_and_blocks` as "no
+failure".  So the dependency closure of a reported plan rests on the reorder being a mere reordering. -/
+
+/-- one clause: a single alternative is passed on as it is; otherwise the alternatives that are not blockers
+and are already provided (`pref a` = `state.match_atom(a) or a in livefs_dbs`) come first, the others after
+them, each group in clause order; without a preferred alternative the clause is passed on as it is -/
+def reorderClause {α : Type} (blocks pref : α → Bool) (cl : List α) : List α :=
+  if cl.length == 1 then cl else
+  let vdb := cl.filter fun a => !blocks a && pref a
+  if vdb.isEmpty then cl else vdb ++ cl.filter fun a => !(!blocks a && pref a)
+
 def finalSet (U : List Pkg) (plan : List Op) : Option (List Nat × List Nat) :=
   (runPlan U (U.filter (·.livefs), []) plan).map fun st => (st.1.map (·.id), st.2.map (·.id))
 
